@@ -1,7 +1,8 @@
 (* Run/C10.v — Sx codec around Model/Extract.v + Model/FsModel.v.
 
    out  = ( dir name size mode optional old fault )
-          old   = () | ( size mode ) | ( size mode shape ) | dir     what is at the output path before the request
+          old   = () | ( size mode ) | ( size mode shape ) | dir | special    what is at the output path before the request
+                  special = a character device (a private copy of the null device): written into, never replaced
                   shape = plain | hardlink | symlink | dir700   (hardlink / symlink: the old file has the other name links/<i>)
           fault = none | missing | corrupt_head | corrupt_mid | corrupt_tail | no_dir
    Contents are symbolic in the legs `strace` and `live`: the old file of output i is the token [79; i], its
@@ -45,7 +46,8 @@ Definition pjoin (p : path) : bytes :=
 
 (* ---------- cases ---------- *)
 
-Inductive oldk := OldNone | OldFile (size mode : N) | OldDir.
+Inductive oldk := OldNone | OldFile (size mode : N) | OldDir | OldSpecial.
+Definition special_mode : N := 438.    (* 0o666: the harness makes a private copy of the null device with this mode *)
 Inductive faultk := KNone | KMissing | KHead | KMid | KTail | KNoDir.
 
 Record spec := mkSpec {
@@ -63,7 +65,7 @@ Definition dec_spec (x : sx) : spec :=
          | SL [a; b] => OldFile (get_N a) (get_N b)
          | SL [a; b; _] => OldFile (get_N a) (get_N b)
          | SL _ => OldNone
-         | _ => if is_sym "dir" old then OldDir else OldNone
+         | _ => if is_sym "dir" old then OldDir else if is_sym "special" old then OldSpecial else OldNone
          end)
         (if is_sym "missing" flt then KMissing else if is_sym "corrupt_head" flt then KHead
          else if is_sym "corrupt_mid" flt then KMid else if is_sym "corrupt_tail" flt then KTail
@@ -100,6 +102,7 @@ Definition plain_fs0_of (specs : list spec) : fs :=
                  | OldNone => []
                  | OldFile _ m => [(s_path s, (old_token i, m))]
                  | OldDir => [(s_path s, (old_token i, 0))]
+                 | OldSpecial => [(s_path s, ([], special_mode))]      (* a device: nothing to read, a sink *)
                  end) (number 0 specs)) 0.
 
 Definition fs0_of (specs : list spec) : fs :=
@@ -138,7 +141,8 @@ Definition obj_of (nchunks : nat) (e : N * spec) : obj :=
      | KNoDir, _ => FCreate
      | _, OldDir => FPersist
      | _, _ => FNone
-     end).
+     end)
+    (match s_old s with OldSpecial => true | _ => false end).
 
 Definition enc_result (r : result) : sx :=
   match r with ROk => sym "ok" | RDecompressionFailure => sym "decompression_failure" | ROtherError => sym "other_error" end.
@@ -153,6 +157,7 @@ Fixpoint canon (evs : list event) (n : N) : list sx :=
   | ERename _ p :: r => SL [sym "rename"; SN (n - 1); SB (pjoin p)] :: canon r n
   | EChmod p m :: r => SL [sym "chmod"; SB (pjoin p); SN m] :: canon r n
   | EUnlink _ :: r => SL [sym "unlink_tmp"; SN (n - 1)] :: canon r n
+  | EOpenW p :: r => SL [sym "open_special"; SB (pjoin p)] :: canon r n
   end.
 
 (* ---------- final state ---------- *)
@@ -166,8 +171,19 @@ Definition class_of (f0 f : fs) (objs : list obj) (p : path) : sx :=
       else sym "other"
   end.
 
+Definition class_spec (f0 f : fs) (objs : list obj) (s : spec) : sx :=
+  match s_old s with
+  | OldSpecial =>
+      (* still the same device node? *)
+      match lookup (s_path s) f0, lookup (s_path s) f with
+      | Some i, Some j => if i =? j then sym "special" else sym "other"
+      | _, _ => sym "other"
+      end
+  | _ => class_of f0 f objs (s_path s)
+  end.
+
 Definition finals (f0 f : fs) (objs : list obj) (specs : list spec) : sx :=
-  SL (map (fun s => SL [SB (pjoin (s_path s)); class_of f0 f objs (s_path s);
+  SL (map (fun s => SL [SB (pjoin (s_path s)); class_spec f0 f objs s;
                         SN (match mode_at f (s_path s) with Some m => m | None => 0 end)]) specs).
 
 Definition leftovers (f : fs) (specs : list spec) : N :=
@@ -259,6 +275,7 @@ Definition dec_raw (x : sx) : rawev :=
       if is_sym "write" k then RGood (EWrite (split_path (get_B a)) (get_N b))
       else if is_sym "rename" k then RGood (ERename (split_path (get_B a)) (split_path (get_B b)))
       else if is_sym "chmod" k then RGood (EChmod (split_path (get_B a)) (get_N b))
+      else if is_sym "open_w" k then (if is_sym "O_WRONLY" b then RGood (EOpenW (split_path (get_B a))) else RBad)
       else RBad
   | _ => RBad
   end.
@@ -270,6 +287,7 @@ Definition event_eqb (a b : event) : bool :=
   | ERename x1 x2, ERename y1 y2 => path_eqb x1 y1 && path_eqb x2 y2
   | EChmod x n, EChmod y m => path_eqb x y && (n =? m)
   | EUnlink x, EUnlink y => path_eqb x y
+  | EOpenW x, EOpenW y => path_eqb x y
   | _, _ => false
   end.
 
@@ -297,23 +315,34 @@ Fixpoint reconstruct (specs : list spec) (evs : list event) : list obj :=
       let flt := match s_fault s, s_old s with KNoDir, _ => FCreate | _, OldDir => FPersist | _, _ => FNone end in
       (* whether a failing member is absent from the entry or stored and unreadable is the case's knowledge *)
       let bad := match s_fault s with KMissing => DecAbsent | _ => DecCorrupt end in
+      match s_old s with
+      | OldSpecial =>
+          match evs with
+          | EOpenW _ :: r =>
+              let '(chunks, r1) := take_writes r in
+              mkObj (s_path s) [] chunks (match s_fault s with KNone => DecOk (Some (s_mode s)) | _ => bad end)
+                    (s_optional s) FNone true :: reconstruct rest r1
+          | _ => [mkObj (s_path s) [] [] bad (s_optional s) FCreate true]
+          end
+      | _ =>
       match evs with
       | ECreate t :: r =>
           let sfx := skipn (length tmp_prefix) (snd t) in
           let '(chunks, r1) := take_writes r in
           match r1 with
           | ERename _ _ :: EChmod _ m :: r2 =>
-              mkObj (s_path s) sfx chunks (DecOk (Some m)) (s_optional s) flt :: reconstruct rest r2
+              mkObj (s_path s) sfx chunks (DecOk (Some m)) (s_optional s) flt false :: reconstruct rest r2
           | ERename _ _ :: r2 =>
-              mkObj (s_path s) sfx chunks (DecOk None) (s_optional s) flt :: reconstruct rest r2
+              mkObj (s_path s) sfx chunks (DecOk None) (s_optional s) flt false :: reconstruct rest r2
           | EUnlink _ :: r2 =>
               match flt with
-              | FPersist => mkObj (s_path s) sfx chunks (DecOk (Some (s_mode s))) (s_optional s) flt :: reconstruct rest r2
-              | _ => mkObj (s_path s) sfx chunks bad (s_optional s) flt :: reconstruct rest r2
+              | FPersist => mkObj (s_path s) sfx chunks (DecOk (Some (s_mode s))) (s_optional s) flt false :: reconstruct rest r2
+              | _ => mkObj (s_path s) sfx chunks bad (s_optional s) flt false :: reconstruct rest r2
               end
-          | _ => [mkObj (s_path s) sfx chunks bad (s_optional s) flt]
+          | _ => [mkObj (s_path s) sfx chunks bad (s_optional s) flt false]
           end
-      | _ => [mkObj (s_path s) [] [] bad (s_optional s) FCreate]
+      | _ => [mkObj (s_path s) [] [] bad (s_optional s) FCreate false]
+      end
       end
   end.
 
